@@ -77,6 +77,10 @@ func NonZeroFelt() *rapid.Generator[felt.Felt] {
 func Felts(max int) *rapid.Generator[[]felt.Felt] {
 	return rapid.Custom(func(t *rapid.T) []felt.Felt {
 		n := rapid.IntRange(0, max).Draw(t, "nfelts")
+		if rapid.IntRange(0, 49).Draw(t, "wideFelts") == 0 {
+			// element counts around the widths of a CBOR array header (and of RLP/proto length prefixes)
+			n = rapid.SampledFrom([]int{23, 24, 25, 255, 256, 257}).Draw(t, "nfeltsWide")
+		}
 		out := make([]felt.Felt, n)
 		for i := range out {
 			out[i] = Felt().Draw(t, "f")
